@@ -340,7 +340,10 @@ class MagnitudeFlow:
         cls_ = getattr(fn, "_parent", None)
         if rec_nodes:
             # records built by a straight-line helper read as their field expressions (x.left, x.magnitudes_in(u), x.index)
-            from ..astutil import expand_records
+            from ..astutil import expand_records, split_record_arms
+            fn0_ = fn
+            fn = split_record_arms(fn, rec_nodes)
+            fn._parent = getattr(fn0_, "_parent", None)
             fn = expand_records(fn, find_method, None, rec_nodes)
         self.fn, self.sink_of, self.find_method = fn, sink_of, find_method
         # record classes of the module: name -> field names in order
